@@ -22,6 +22,9 @@ func TestSurvey(t *testing.T) {
 	if spec == "" {
 		t.Skip()
 	}
+	for _, tag := range strings.Split(os.Getenv("C19_EXCL"), ",") {
+		forcedExcl[tag] = true
+	}
 	name, ns, _ := strings.Cut(spec, ":")
 	n, _ := strconv.Atoi(ns)
 	_ = flag.Set("rapid.checks", strconv.Itoa(n))
